@@ -645,8 +645,14 @@ func checkChi(c *Ctx, r *Run) {
 			chiArg := firstAcc.Call.Args[len(firstAcc.Call.Args)-1]
 			// chi[i] is an element of a slice filled by digest.Read
 			accOK = dependsOn(chiArg, func(v ssa.Value) bool {
-				ms, ok := v.(*ssa.MakeSlice)
-				if !ok {
+				// the buffer chi is read into: a slice of vectors filled up front, or one vector refilled per iteration
+				var ms ssa.Value
+				switch x := v.(type) {
+				case *ssa.MakeSlice:
+					ms = x
+				case *ssa.Alloc:
+					ms = x
+				default:
 					return false
 				}
 				filled := false
